@@ -122,7 +122,7 @@ def make(interp):
         interp.ctx.__dict__.setdefault("_searchsorted", []).append(dict(k=k, a=a, v=vv, space=sp))
         return V(k, vv.axes, meta=("searchsorted", a, vv))
 
-    return {"divide": np_divide, "zeros_like": np_zeros_like, "ones": np_ones, "arange": np_arange, "searchsorted": np_searchsorted, "diff": np_diff, "all": lambda x, **k: theory_np.v_getattr(interp, x, "all")(), "any": lambda x, **k: theory_np.v_getattr(interp, x, "any")()}
+    return {"divide": np_divide, "zeros_like": np_zeros_like, "ones": np_ones, "arange": np_arange, "searchsorted": np_searchsorted, "diff": np_diff, "all": lambda x, **k: (only_kw("np.all", k), theory_np.v_getattr(interp, x, "all")())[1], "any": lambda x, **k: (only_kw("np.any", k), theory_np.v_getattr(interp, x, "any")())[1]}
 
 
 class OnesOf:
